@@ -68,6 +68,25 @@ type VerifStep struct {
 	// Offsets and texts of all comments before and after the cleanup that
 	// follows the change.
 	CommentsBefore, CommentsAfter []VerifComment
+	// With VerifSnapshots: the astdiff snapshot before the change and the
+	// one it is replaced by (see astdiff.Snapshot.VerifSexp), and the calls
+	// astdiff made to Changelog.Changed, in order.
+	SnapFrom, SnapTo string
+	ChangedCalls     [][2]int
+}
+
+// VerifSnapshots makes VerifRun record the astdiff snapshots of each step.
+var VerifSnapshots bool
+
+// verifRecorder passes Changed calls on to the changelog and keeps them.
+type verifRecorder struct {
+	cl    engine.Changelog
+	calls *[][2]token.Pos
+}
+
+func (r verifRecorder) Changed(pos, end token.Pos) {
+	*r.calls = append(*r.calls, [2]token.Pos{pos, end})
+	r.cl.Changed(pos, end)
 }
 
 // VerifNoPos is how token.NoPos is reported in offsets.
@@ -134,6 +153,7 @@ func VerifRun(fset *token.FileSet, progs []*VerifProgram, filename string, src [
 	}
 
 	snap := astdiff.Before(base, ast.NewCommentMap(fset, base, base.Comments))
+	intern := astdiff.NewVerifInterner()
 	var fout *ast.File
 	failed := false
 loop:
@@ -158,7 +178,18 @@ loop:
 				continue
 			}
 			fout = out
-			snap = snap.Diff(fout, cl)
+			if VerifSnapshots {
+				var calls [][2]token.Pos
+				st.SnapFrom = snap.VerifSexp(intern, off)
+				snap = snap.Diff(fout, verifRecorder{cl: cl, calls: &calls})
+				st.SnapTo = snap.VerifSexp(intern, off)
+				st.ChangedCalls = [][2]int{}
+				for _, c := range calls {
+					st.ChangedCalls = append(st.ChangedCalls, [2]int{off(c[0]), off(c[1])})
+				}
+			} else {
+				snap = snap.Diff(fout, cl)
+			}
 			for _, iv := range cl.ChangedIntervals() {
 				st.Intervals = append(st.Intervals, [2]int{off(iv.Start), off(iv.End)})
 			}
